@@ -419,7 +419,8 @@ func lruDiff(g *lruReply, want Step, nilDelete bool) string {
 const lruProbeKey = 100000
 
 // replayLRU runs one behaviour of LRUImpl.tla / LRU.tla on a fresh real cache.
-//   -variant cache|ecache|expirable     -x ondelete=nil  (nil delete callback)
+//
+//	-variant cache|ecache|expirable     -x ondelete=nil  (nil delete callback)
 func replayLRU(b Behaviour, opt *Options) *Failure {
 	variant := opt.Variant
 	if variant == "" {
